@@ -1218,3 +1218,87 @@ func (g *G) LayeredSameName() (*rm.Model, []rm.Tuple, []Request) {
 	}
 	return m, tuples, reqs
 }
+
+// DeepRecursive is a directed shape: self-recursive relations (a userset recursion and a
+// tuple-to-userset recursion) over eight to twelve objects arranged in chains, trees and the odd
+// cycle, so that the recursive and weight-two strategies read several rows per step (an iterator
+// fault then lands in the middle of a set that matters) and recursion depth exceeds one level.
+func (g *G) DeepRecursive() (*rm.Model, []rm.Tuple, []Request) {
+	this := &rm.Rewrite{Kind: rm.This}
+	group := &rm.TypeDef{Name: "group", Relations: []*rm.Relation{
+		{Name: "member", Rewrite: this, Restrictions: []rm.Restriction{{Type: "user"}, {Type: "group", Relation: "member"}}}}}
+	folder := &rm.TypeDef{Name: "folder"}
+	m := &rm.Model{Types: []*rm.TypeDef{{Name: "user"}, group, folder}}
+	folder.Relations = append(folder.Relations, &rm.Relation{Name: "parent", Rewrite: this, Restrictions: []rm.Restriction{{Type: "folder"}}})
+	vres := []rm.Restriction{{Type: "user"}}
+	if g.Chance(0.5) {
+		vres = append(vres, rm.Restriction{Type: "group", Relation: "member"})
+	}
+	folder.Relations = append(folder.Relations, &rm.Relation{Name: "viewer", Restrictions: vres,
+		Rewrite: &rm.Rewrite{Kind: rm.Union, Children: []*rm.Rewrite{this, {Kind: rm.TTU, Tupleset: "parent", Relation: "viewer"}}}})
+	folder.Relations = append(folder.Relations,
+		&rm.Relation{Name: "blocked", Rewrite: this, Restrictions: []rm.Restriction{{Type: "user"}}},
+		&rm.Relation{Name: "allowed", Rewrite: this, Restrictions: []rm.Restriction{{Type: "user"}}})
+	v := &rm.Rewrite{Kind: rm.Computed, Relation: "viewer"}
+	switch g.Intn(3) {
+	case 0:
+		folder.Relations = append(folder.Relations, &rm.Relation{Name: "can_view", Rewrite: v})
+	case 1:
+		folder.Relations = append(folder.Relations, &rm.Relation{Name: "can_view", Rewrite: &rm.Rewrite{Kind: rm.Difference, Children: []*rm.Rewrite{v, {Kind: rm.Computed, Relation: "blocked"}}}})
+	default:
+		folder.Relations = append(folder.Relations, &rm.Relation{Name: "can_view", Rewrite: &rm.Rewrite{Kind: rm.Intersection, Children: []*rm.Rewrite{v, {Kind: rm.Computed, Relation: "allowed"}}}})
+	}
+	n := 8 + g.Intn(5)
+	var tuples []rm.Tuple
+	seen := map[string]bool{}
+	add := func(t rm.Tuple) {
+		if !seen[t.Key()] && t.Obj != rm.UserObject(t.User) {
+			seen[t.Key()] = true
+			tuples = append(tuples, t)
+		}
+	}
+	cyc := g.Chance(0.25)
+	for i := 0; i < n; i++ {
+		// group:gi is a member of one or two groups with a smaller index (a DAG; with cyc, any index)
+		for k := 0; k < 1+g.Intn(2) && i > 0; k++ {
+			j := g.Intn(i)
+			if cyc && g.Chance(0.3) {
+				j = g.Intn(n)
+			}
+			add(rm.Tuple{Obj: fmt.Sprintf("group:g%d", j), Rel: "member", User: fmt.Sprintf("group:g%d#member", i)})
+		}
+		for k := 0; k < 1+g.Intn(2) && i > 0; k++ {
+			j := g.Intn(i)
+			if cyc && g.Chance(0.3) {
+				j = g.Intn(n)
+			}
+			add(rm.Tuple{Obj: fmt.Sprintf("folder:f%d", i), Rel: "parent", User: fmt.Sprintf("folder:f%d", j)})
+		}
+		if g.Chance(0.3) {
+			add(rm.Tuple{Obj: fmt.Sprintf("group:g%d", i), Rel: "member", User: "user:" + Pick(g, userIDs)})
+		}
+		if g.Chance(0.25) {
+			add(rm.Tuple{Obj: fmt.Sprintf("folder:f%d", i), Rel: "viewer", User: "user:" + Pick(g, userIDs)})
+		}
+		if len(vres) > 1 && g.Chance(0.25) {
+			add(rm.Tuple{Obj: fmt.Sprintf("folder:f%d", i), Rel: "viewer", User: fmt.Sprintf("group:g%d#member", g.Intn(n))})
+		}
+		if g.Chance(0.2) {
+			add(rm.Tuple{Obj: fmt.Sprintf("folder:f%d", i), Rel: Pick(g, []string{"blocked", "allowed", "allowed"}), User: "user:" + Pick(g, userIDs)})
+		}
+	}
+	var reqs []Request
+	for i := 0; i < 12; i++ {
+		u := "user:" + Pick(g, userIDs)
+		switch g.Intn(4) {
+		case 0:
+			reqs = append(reqs, Request{Kind: "check", Obj: fmt.Sprintf("group:g%d", g.Intn(n)), Rel: "member", User: u})
+		case 1:
+			reqs = append(reqs, Request{Kind: "check", Obj: fmt.Sprintf("folder:f%d", g.Intn(n)), Rel: "viewer", User: u})
+		default:
+			// the deepest folders have the longest parent chains
+			reqs = append(reqs, Request{Kind: "check", Obj: fmt.Sprintf("folder:f%d", n-1-g.Intn(3)), Rel: "can_view", User: u})
+		}
+	}
+	return m, tuples, reqs
+}
